@@ -572,9 +572,15 @@ def place_lint(rng, root):
     if r < 0.8:
         parent = os.path.dirname(root)
         return parent, ["--root", os.path.basename(root)]
-    if r < 0.9:
+    if r < 0.85:
         return "/", ["--root", root + "/"]
-    subs = [d for d in sorted(os.listdir(root)) if os.path.isdir(os.path.join(root, d)) and not d.startswith(".") and d != "LICENSES"]
+    subs = [d for d in sorted(os.listdir(root)) if os.path.isdir(os.path.join(root, d)) and not os.path.islink(os.path.join(root, d))
+            and not d.startswith(".") and d != "LICENSES"]
+    if r < 0.9 and subs:
+        # not normalised: down into a directory and up again (the '$(dirname "$0")/..' idiom of scripts)
+        if rng.random() < 0.5:
+            return root, ["--root", subs[0] + "/.."]
+        return os.path.dirname(root), ["--root", os.path.join(root, subs[0], "..")]
     if subs:
         cwd = os.path.join(root, subs[0])
         return cwd, ["--root", os.path.relpath(root, cwd)]
